@@ -14,6 +14,8 @@ EXPLANATION = (
     "for unknown flows are answered with Reset (C10 table rows); (R5) nothing leaks into a reused id: every "
     "field of the per-stream state other than id/host/port/queue handles is freshly constructed in the stream "
     "constructor.")
+EXPLANATION_ADDED = 'R3 also decides necessity: with inhibit_rst=false every closing path of an established, not-finished stream queues a Reset.'
+EXPLANATION = EXPLANATION + " Added while testing against seeded changes: " + EXPLANATION_ADDED
 ASSUMPTIONS = ["tokio mpsc unbounded send from Drop is non-blocking"]
 NOT_DECIDED = "absence of leaks over arbitrarily long histories (every way a slot leaves the map cleans it; whether every abandoned slot leaves the map depends on peer behaviour)"
 THOROUGH_CONFIGS = ["mux-nodefault", "mux-nohash"]
